@@ -90,9 +90,10 @@ func Resume(
 						"`WithDataPadding` option must match the padding on file. "+
 						"Expected padding value of %v but got %v", wantPadding, gotPadding,
 				)
-			} else if headerInFile.DataSize == 0 {
-				// If CARv1 size is zero, since CARv1 offset wasn't, then the CARv2 header was
-				// most-likely partially written. Since we write the header last in Finalize then the
+			} else if headerInFile.DataSize == 0 || headerInFile.IndexOffset == 0 {
+				// If CARv1 size or the index offset is zero, since CARv1 offset wasn't, then the CARv2
+				// header was most-likely partially written (Finalize always records an index offset;
+				// a partially written size must not be trusted to truncate the file). Since we write the header last in Finalize then the
 				// file most-likely contains the index and we cannot know where it starts, therefore
 				// can't resume.
 				return errors.New("corrupt CARv2 header; cannot resume from file")
